@@ -3,6 +3,8 @@ package keeper
 // Exported doors for the harnesses that live in package mhub2 (abci.go is there).
 
 import (
+	"math/big"
+
 	sdk "github.com/cosmos/cosmos-sdk/types"
 
 	"github.com/MinterTeam/mhub2/module/x/mhub2/types"
@@ -11,9 +13,9 @@ import (
 type ZZState = zzState
 
 type ZZStateOpts struct {
-	MaxPool, MaxBatches, MaxPerBatch        int
+	MaxPool, MaxBatches, MaxPerBatch   int
 	ZeroFees, ConcreteIds, SymDecimals bool
-	Chains                                  []types.ChainID
+	Chains                             []types.ChainID
 }
 
 func ZZBuildState(o ZZStateOpts) *ZZState {
@@ -21,15 +23,17 @@ func ZZBuildState(o ZZStateOpts) *ZZState {
 		zeroFees: o.ZeroFees, concreteIds: o.ConcreteIds, symDecimals: o.SymDecimals, chains: o.Chains})
 }
 
-func (st *ZZState) Env() *ZZEnv                    { return st.env }
-func (st *ZZState) Chain() types.ChainID           { return st.chain }
-func (st *ZZState) Pool() []*types.SendToExternal  { return st.pool }
-func (st *ZZState) Batches() []*types.BatchTx      { return st.batches }
-func (st *ZZState) Ids() (string, string)          { return st.idA, st.idB }
-func (st *ZZState) LastNonce() uint64              { return st.lastNon }
-func ZZOrigins(st *ZZState)                        { zzOrigins(st) }
-func ZZRefundPreOf(st *ZZState) *ZZRefundPre       { return zzRefundPre(st) }
-func ZZHasBatch(bs []*types.BatchTx, tok string, nonce uint64) bool { return zzHasBatch(bs, tok, nonce) }
+func (st *ZZState) Env() *ZZEnv                   { return st.env }
+func (st *ZZState) Chain() types.ChainID          { return st.chain }
+func (st *ZZState) Pool() []*types.SendToExternal { return st.pool }
+func (st *ZZState) Batches() []*types.BatchTx     { return st.batches }
+func (st *ZZState) Ids() (string, string)         { return st.idA, st.idB }
+func (st *ZZState) LastNonce() uint64             { return st.lastNon }
+func ZZOrigins(st *ZZState)                       { zzOrigins(st) }
+func ZZRefundPreOf(st *ZZState) *ZZRefundPre      { return zzRefundPre(st) }
+func ZZHasBatch(bs []*types.BatchTx, tok string, nonce uint64) bool {
+	return zzHasBatch(bs, tok, nonce)
+}
 func ZZPoolOf(k Keeper, ctx sdk.Context, chain types.ChainID) []*types.SendToExternal {
 	return zzPoolOf(k, ctx, chain)
 }
@@ -39,7 +43,7 @@ func ZZBatchesOf(k Keeper, ctx sdk.Context, chain types.ChainID) []*types.BatchT
 func ZZCount(k Keeper, ctx sdk.Context, chain types.ChainID, id uint64) (int, int) {
 	return zzCount(k, ctx, chain, id)
 }
-func ZZDefaultParams() types.Params { return zzDefaultParams() }
+func ZZDefaultParams() types.Params                          { return zzDefaultParams() }
 func (k Keeper) ZZSetParams(ctx sdk.Context, p types.Params) { k.setParams(ctx, p) }
 
 // ---- attestation state (C02/C03) ----
@@ -62,4 +66,11 @@ func (k Keeper) ZZGetLastEventNonceByValidator(ctx sdk.Context, chain types.Chai
 }
 func (k Keeper) ZZHasStoredEventNonce(ctx sdk.Context, chain types.ChainID, v sdk.ValAddress) bool {
 	return ctx.KVStore(k.storeKey).Has(types.MakeLastEventNonceByValidatorKey(chain, v))
+}
+
+// ZZHubValue: vouchers (hub units) a pool entry is worth: conv(amount+fee+commission), truncating.
+func ZZHubValue(k Keeper, ctx sdk.Context, chain types.ChainID, e *types.SendToExternal) *big.Int {
+	taken := new(big.Int).Add(e.Token.Amount.BigInt(), e.Fee.Amount.BigInt())
+	taken.Add(taken, e.ValCommission.Amount.BigInt())
+	return zzConv(zzDecimalsOf(k, ctx, chain, e.Token.ExternalTokenId), 18, taken)
 }
